@@ -341,9 +341,12 @@ func (g *Gen) items(b *BodySpec, depth int, pathPrefix string) []*Item {
 		for i := 0; i < n; i++ {
 			noise()
 			name := g.ident(used)
-			out = append(out, &Item{Attr: &AttrItem{Name: name, Expr: g.exprFor(b.Any.Cons, 0)}})
+			ex := g.exprFor(b.Any.Cons, 0)
+			out = append(out, &Item{Attr: &AttrItem{Name: name, Expr: ex}})
 			if b.Any.Addr != nil {
+				g.lastExpr = ex
 				g.declareAttr(b.Any, name)
+				g.lastExpr = nil
 			}
 		}
 	}
@@ -359,9 +362,12 @@ func (g *Gen) items(b *BodySpec, depth int, pathPrefix string) []*Item {
 			continue
 		}
 		noise()
-		out = append(out, &Item{Attr: &AttrItem{Name: a.Name, Expr: g.exprFor(a.Cons, 0)}})
+		ex := g.exprFor(a.Cons, 0)
+		out = append(out, &Item{Attr: &AttrItem{Name: a.Name, Expr: ex}})
 		if a.Addr != nil {
+			g.lastExpr = ex
 			g.declareAttr(a, a.Name)
+			g.lastExpr = nil
 		}
 	}
 	if g.chance(g.P.Violations) {
@@ -407,6 +413,27 @@ func (g *Gen) items(b *BodySpec, depth int, pathPrefix string) []*Item {
 	return out
 }
 
+// declareNested records the addresses of the elements of a written value.
+func (g *Gen) declareNested(addr string, e *Expr, depth int) {
+	if e == nil || depth > 2 {
+		return
+	}
+	switch e.K {
+	case "obj":
+		for i, k := range e.Keys {
+			if (k.K == "kw" || k.K == "str") && isIdent(k.S) {
+				g.addrs = append(g.addrs, addr+"."+k.S)
+				g.declareNested(addr+"."+k.S, e.A[i], depth+1)
+			}
+		}
+	case "list":
+		for i, a := range e.A {
+			g.addrs = append(g.addrs, fmt.Sprintf("%s[%d]", addr, i))
+			g.declareNested(fmt.Sprintf("%s[%d]", addr, i), a, depth+1)
+		}
+	}
+}
+
 func (g *Gen) declareAttr(a *AttrSpec, name string) {
 	var parts []string
 	for _, s := range a.Addr.Steps {
@@ -419,6 +446,9 @@ func (g *Gen) declareAttr(a *AttrSpec, name string) {
 	}
 	if len(parts) > 0 {
 		g.addrs = append(g.addrs, strings.Join(parts, "."))
+		if g.lastExpr != nil {
+			g.declareNested(strings.Join(parts, "."), g.lastExpr, 0)
+		}
 	}
 }
 
